@@ -53,6 +53,16 @@ Proof.
   intros b x E. destruct b; discriminate.
 Qed.
 
+(* ... and an arrival closes a session only when it is more than g after the session's last
+   event (any op sequence, any timestamp order): sessions are not cut short. *)
+Theorem C12_session_close : forall g ops outs s,
+  run (init (KSession g)) ops = (outs, s) ->
+  Forall (closed_by_gap g) (add_closings ops outs).
+Proof.
+  intros g ops outs s Hr. apply (session_close_run g ops (s_new g) outs s); [|exact Hr].
+  unfold s_inv2. cbn. split; [reflexivity|]. split; [reflexivity|]. intros b x E. destruct b; discriminate.
+Qed.
+
 (* The partitioned forms (PartitionedTumblingWindow, PartitionedSessionWindow, the partitioned
    count window of engine/types.rs): for every key, the events of that key in the closed
    windows (closed by arrivals, by watermark / expiry sweeps over all partitions, or by flush),
